@@ -14,6 +14,7 @@ Python source on every run into Gallina terms, and coqc proves that Model/Nnls.v
   aset_selection_termination   when argmax(gradient) enters the passive set; clip / gradient / termination test at the end of the loop
   admm_loop_body_stop   admm with n_const given, ENTRYWISE: the two arguments of tl.solve, the argument of proximal_operator, the new dual variable,
                     the matrices inside the two norm tests (Model/NnlsAdmm.v admm_body / admm_stop; entry lemmas in Proofs/NnlsProofsAdmmLoop.v)
+  hals_callback_exact   `if exact:` sets (50000, 1e-16); the callback block sits after the row loop and before the reference / rule (= hals_loop_cb)
   fista_momentum    momentum_old = 1.0; momentum = (1 + sqrt(1 + 4 momentum_old**2)) / 2 = Model/NnlsMomentum.v momentum_next; momentum_old = momentum
 (the structural parts of the last four are matched as ast patterns; their arithmetic is translated; all end in coqc goals about the model)
 Fail closed: a construct the translator does not know is a broken tie."""
@@ -372,6 +373,50 @@ def tie_hals_stop(tree):
             "  let st := hals_pass_e Rops UtM UtU n o V in let e := snd st in let e0 := if first then e else err0 in\n"
             f"  if {c[1]} then fst st else hals_loop Rops UtM UtU n o tol f false e0 (fst st).\n"
             "Proof. intros. cbn [hals_loop]. reflexivity. Qed.\n")
+
+
+def tie_hals_callback(tree):
+    """hals_nnls: `if exact: n_iter_max = 50000; tol = 1e-16` before the loop; inside, AFTER the row loop and BEFORE the reference / stopping
+    rule: `if callback is not None: retVal = callback(V, rec_error); if retVal is True: ... break`  (= one unfolding of hals_loop_cb)"""
+    fn = _func(tree, "hals_nnls")
+    outer = _for_over(fn.body, "iteration")
+    ex = [s for s in fn.body if isinstance(s, ast.If) and isinstance(s.test, ast.Name) and s.test.id == "exact"]
+    if len(ex) != 1 or ex[0].orelse or fn.body.index(ex[0]) > fn.body.index(outer):
+        raise Untranslatable("`if exact:` once, before the iteration loop")
+    vals = {s.targets[0].id: s.value.value for s in ex[0].body
+            if isinstance(s, ast.Assign) and isinstance(s.targets[0], ast.Name) and isinstance(s.value, ast.Constant)}
+    if vals != {"n_iter_max": 50000, "tol": 1e-16} or len(ex[0].body) != 2:
+        raise Untranslatable(f"`if exact:` does not set exactly n_iter_max = 50000, tol = 1e-16 (found {vals})")
+    rows = [i for i, s in enumerate(outer.body) if isinstance(s, ast.For) and isinstance(s.target, ast.Name) and s.target.id == "k"]
+    cbs = [i for i, s in enumerate(outer.body) if isinstance(s, ast.If) and _is_none_test(s.test) == ("callback", False)]
+    ref = [i for i, s in enumerate(outer.body) if isinstance(s, ast.If) and isinstance(s.test, ast.Compare) and isinstance(s.test.left, ast.Name)
+           and s.test.left.id == "iteration" and isinstance(s.test.ops[0], ast.Eq)]
+    brk = [i for i, s in enumerate(outer.body) if isinstance(s, ast.If) and len(s.body) == 1 and isinstance(s.body[0], ast.Break)]
+    if not (len(rows) == 1 and len(cbs) == 1 and len(ref) == 1 and len(brk) == 1 and rows[0] < cbs[0] < ref[0] < brk[0]):
+        raise Untranslatable("order: row loop, callback block, `if iteration == 0`, stopping test")
+    cb = outer.body[cbs[0]]
+    if cb.orelse or len(cb.body) != 2:
+        raise Untranslatable("callback block is not `retVal = callback(V, rec_error); if retVal is True: ...`")
+    a, t = cb.body
+    ok = isinstance(a, ast.Assign) and isinstance(a.targets[0], ast.Name) and isinstance(a.value, ast.Call) and isinstance(a.value.func, ast.Name) \
+        and a.value.func.id == "callback" and [getattr(x, "id", None) for x in a.value.args] == ["V", "rec_error"] and not a.value.keywords
+    rv = a.targets[0].id if ok else None
+    ok = ok and isinstance(t, ast.If) and not t.orelse and isinstance(t.test, ast.Compare) and isinstance(t.test.left, ast.Name) and t.test.left.id == rv \
+        and isinstance(t.test.ops[0], ast.Is) and isinstance(t.test.comparators[0], ast.Constant) and t.test.comparators[0].value is True \
+        and isinstance(t.body[-1], ast.Break) and all(isinstance(x, ast.Expr) for x in t.body[:-1])
+    if not ok:
+        raise Untranslatable("callback block is not `retVal = callback(V, rec_error); if retVal is True: ... break`")
+    m = Mat({"rec_error": ("S", "(snd st)"), "rec_error0": ("S", "e0"), "tol": ("S", "tol")}, None)
+    c = m.expr(outer.body[brk[0]].test)
+    if c[0] != "B":
+        raise Untranslatable("stopping test is not a comparison")
+    return ("Goal forall (UtM UtU : mat) (n : nat) (o : @hopts R) (cb : mat -> R -> bool) (tol : R) (f : nat) (first : bool) (err0 : R) (V : mat),\n"
+            "  hals_loop_cb Rops UtM UtU n o cb tol (S f) first err0 V =\n"
+            "  let st := hals_pass_e Rops UtM UtU n o V in\n"
+            "  if cb (fst st) (snd st) then fst st else\n"
+            "  let e0 := if first then snd st else err0 in\n"
+            f"  if {c[1]} then fst st else hals_loop_cb Rops UtM UtU n o cb tol f false e0 (fst st).\n"
+            "Proof. intros. cbn [hals_loop_cb]. reflexivity. Qed.\n")
 
 
 def tie_hals_cold(tree):
@@ -919,7 +964,7 @@ def ties(nnls_src, admm_src):
                           ("fista_step", tie_fista_step, t1), ("fista_loop_step", tie_fista_loop, t1), ("aset_step", tie_aset_step, t1),
                           ("admm_none", tie_admm_none, t2), ("hals_error_nonzero_rows", tie_hals_err_nz, t1), ("fista_entry", tie_fista_entry, t1),
                           ("admm_x_split", tie_admm_split, t2), ("aset_selection_termination", tie_aset_tests, t1),
-                          ("admm_loop_body_stop", tie_admm_loop, t2), ("fista_momentum", tie_fista_momentum, t1)):
+                          ("admm_loop_body_stop", tie_admm_loop, t2), ("fista_momentum", tie_fista_momentum, t1), ("hals_callback_exact", tie_hals_callback, t1)):
         try:
             out.append((name, f(tree), None))
         except (Untranslatable, KeyError, IndexError, AttributeError, TypeError) as e:
